@@ -216,6 +216,12 @@ Error RACFGBuilder::on_instruction(InstNode* inst, InstControlFlow& cf, RAInstBu
           // restrict encoding of other registers.
           if (reg.is_gp8() && !op_rw_info.has_op_flag(OpRWFlags::kRegPhysId)) {
             flags |= RATiedFlags::kX86_Gpb;
+
+            // The home slot of a virtual register addresses its low byte, so AH|BH|CH|DH cannot be replaced by it.
+            if (reg.is_gp8_hi()) {
+              flags &= ~(RATiedFlags::kUseRM | RATiedFlags::kOutRM);
+            }
+
             if (!_is_64bit) {
               // Restrict to first four - AL|AH|BL|BH|CL|CH|DL|DH. In 32-bit mode it's not possible to access
               // SIL|DIL, etc, so this is just enough.
